@@ -138,15 +138,12 @@ func cmdCheck(args []string) {
 	// an undecided obligation (no model) may be a time-out caused by machine load: one retry with twice the
 	// budget and fewer concurrent queries before it is reported
 	var retry []*Obligation
+	noRetry := os.Getenv("GOVC_NORETRY") != "" // seed sweeps: an undecided obligation is as good as a failed one
 	for _, o := range obls {
-		if o.Result != nil && o.Goal != nil && !strings.HasPrefix(o.Kind, "unclaimed:") && (o.Result.Status == "unknown" || o.Result.Status == "timeout") {
+		if !noRetry && o.Result != nil && o.Goal != nil && !strings.HasPrefix(o.Kind, "unclaimed:") && (o.Result.Status == "unknown" || o.Result.Status == "timeout") {
 			o.Result = nil
 			retry = append(retry, o)
 		}
-	}
-	if os.Getenv("GOVC_NORETRY") != "" {
-		// seed sweeps: an undecided obligation is as good as a failed one for "was the change noticed"
-		retry = nil
 	}
 	if len(retry) > 0 {
 		fmt.Fprintf(os.Stderr, "govc check %s: %d undecided obligation(s), retrying with timeout %ds\n", prop, len(retry), 2*timeout)
@@ -170,17 +167,24 @@ func cmdCheck(args []string) {
 	bySolver := map[string]int{}
 	// return-reachability probes (thorough tier): infeasible individual returns are normal under path splitting; only
 	// a function none of whose probed returns is reachable has a contradictory contract/invariant
-	retReach := map[string][2]int{} // func -> {reachable, unreachable}
+	retReach := map[string][2]int{} // func -> {reachable or undecided, unreachable}
+	entryReach := map[string][]string{} // "<func>/loopN" -> statuses of the entry probes, one per analysis of the loop (in order)
+	reachSeen := map[string]int{}
 	for _, o := range obls {
 		if o.Kind == "vacuity" && strings.HasSuffix(o.Name, ".reach") && strings.Contains(o.Name, "/ret") && o.Result != nil {
 			c := retReach[o.Func]
 			switch o.Result.Status {
-			case "nonvacuous":
-				c[0]++
 			case "vacuous":
 				c[1]++
+			default:
+				// reachable, or undecided (a probe that times out proves nothing either way)
+				c[0]++
 			}
 			retReach[o.Func] = c
+		}
+		if o.Kind == "vacuity" && strings.HasSuffix(o.Name, ".entryreach") && o.Result != nil {
+			k := strings.TrimSuffix(o.Name, ".entryreach")
+			entryReach[k] = append(entryReach[k], o.Result.Status)
 		}
 	}
 	for _, o := range obls {
@@ -188,6 +192,28 @@ func cmdCheck(args []string) {
 			if c := retReach[o.Func]; c[0] > 0 {
 				o.Result.Status = "unreachable-return" // informational
 			}
+		}
+		// a loop that cannot be reached under the function's preconditions (dead code under the contract) has a vacuous
+		// head probe for a benign reason: only a loop whose ENTRY is reachable and whose head state is contradictory
+		// points at contradictory invariants
+		if o.Kind == "vacuity" && strings.HasSuffix(o.Name, ".reach") && strings.Contains(o.Name, "/loop") && o.Result != nil {
+			// the k-th head probe of a loop belongs to its k-th entry probe (a loop reached on several paths is analysed
+			// once per path)
+			k := strings.TrimSuffix(o.Name, ".reach")
+			idx := reachSeen[k]
+			reachSeen[k]++
+			if o.Result.Status == "vacuous" {
+				st := ""
+				if idx < len(entryReach[k]) {
+					st = entryReach[k][idx]
+				}
+				if st != "nonvacuous" {
+					o.Result.Status = "unreachable-loop" // informational
+				}
+			}
+		}
+		if o.Kind == "vacuity" && strings.HasSuffix(o.Name, ".entryreach") && o.Result != nil {
+			o.Result.Status = "nonvacuous-or-dead" // the entry probe itself is informational
 		}
 	}
 	for _, o := range obls {
